@@ -676,3 +676,118 @@ def r06_6b(ctx):
                 else:
                     ctx.ok((k, name, s1), sample=dict(fn=k.split('wire::', 1)[-1], cursor=name))
     ctx.need(n >= 5, f"cursor-positioned writes (found {n})")
+
+
+def _payload_start(F, m):
+    """constant S when view method m returns `&mut buffer[S..]` (the payload / data area behind a fixed header)"""
+    from ..bitfield import _is_buffer
+    try:
+        r = strip(simplify(ret_origin(F, m)))
+    except Exception:
+        return None
+    while r[0] in ('ref', 'deref') and len(r) == 2:
+        r = strip(r[1])
+    if r[0] == 'call' and r[1].rsplit('::', 1)[-1] == 'index_mut' and len(r[2]) == 2 and _is_buffer(r[2][0], None):
+        rb = range_bounds(F, r[2][1])
+        if rb and rb[0] in ('RangeFrom', 'Range'):
+            return const_of(expand(F, rb[1], None))
+    return None
+
+
+def _on_param(F, b, x):
+    """the receiver of this method call is (a reborrow of) one of the body's own parameters - not a view built locally"""
+    if not x[2] or not is_place_op(x[2][0]):
+        return False
+    o = strip(F.origin.operand(b, x[2][0], x[0], len(b.blocks[x[0]]['s'])))
+    while o[0] in ('ref', 'deref', 'after') and len(o) >= 2:
+        o = strip(o[1])
+    if o[0] == 'phi':
+        return all(_root_is_arg(a) for a in o[1])
+    return _root_is_arg(o)
+
+
+def _root_is_arg(o):
+    o = strip(o)
+    while o[0] in ('ref', 'deref', 'after') and len(o) >= 2:
+        o = strip(o[1])
+    return o[0] == 'arg' or (o[0] == 'field' and o[1][0] == 'arg')
+
+
+def _block_defs(F, b, maps):
+    """block -> set of (byte, bit) that the block defines (through view methods with a known map or direct stores)"""
+    out = {}
+    for x in b.calls():
+        nm = b.callee_name(x[1])
+        if nm in maps and _on_param(F, b, x):
+            for byte, bits in maps[nm].items():
+                for i, v in enumerate(bits):
+                    if v != ('b', byte, i):
+                        out.setdefault(x[0], set()).add((byte, i))
+    for bi, bl in enumerate(b.blocks):
+        if bl['cl']:
+            continue
+        try:
+            M = setter_stores(F, b, None, only_blocks={bi}, lenient=True)
+        except Undecided:
+            M = {}
+        for byte, bits in M.items():
+            for i, v in enumerate(bits):
+                if v != ('b', byte, i):
+                    out.setdefault(bi, set()).add((byte, i))
+    return out
+
+
+@rule('R06.9', ['C06', 'C10'], floor=8, clause='when an emit fills in a payload behind a fixed-size header, every bit of that header is defined on the same path (no unused / reserved header word keeps previous buffer content)')
+def r06_9(ctx):
+    """Must-pass-through per header bit: sites = calls of a view method returning `&mut buffer[S..]` with constant
+    S inside an emit; for every bit of bytes [0, S) every entry->site->return path passes a block that defines it."""
+    F = ctx.F
+    maps = _method_maps(F)
+    starts = {}
+    for adt in sorted(wire_views(F)):
+        if not in_scope(F, adt):
+            continue
+        for m in F.methods(adt):
+            s0 = _payload_start(F, m)
+            if s0:
+                starts[m.key] = s0
+    ctx.need(len(starts) >= 8, f"payload accessors with a constant start (found {len(starts)})")
+    n = 0
+    for k, b in sorted(F.bodies.items()):
+        if not (b.file or '').startswith('src/wire/') or k.rsplit('::', 1)[-1] not in ('emit', 'emit_header') or not in_scope(F, b):
+            continue
+        sites = [(x[0], b.callee_name(x[1])) for x in b.calls() if b.callee_name(x[1]) in starts and _on_param(F, b, x)]
+        # icmpv6: the error messages fill the contained packet through a nested helper behind the 8-octet header
+        # (payload_mut() itself starts at a message-type dependent offset)
+        for x in b.calls():
+            nm = b.callee_name(x[1]) or ''
+            if nm.startswith(k + '::') and nm.endswith('emit_contained_packet') and _on_param(F, b, x):
+                starts[nm] = 8          # wire::icmpv6::field::UNUSED.end: type, code, checksum, one message-specific word
+                sites.append((x[0], nm))
+        if not sites:
+            continue
+        defs = _block_defs(F, b, maps)
+        rets = b.return_blocks()
+        short = k.split('wire::', 1)[-1]
+        for bb, callee in sites:
+            n += 1
+            S = starts[callee]
+            missing = []
+            for byte in range(S):
+                for bit in range(8):
+                    D = {blk for blk, st in defs.items() if (byte, bit) in st}
+                    if bb in D or 0 in D:
+                        continue
+                    pre = b.reachable(cut_blocks=D)
+                    if bb not in pre:
+                        continue
+                    post = b.reachable(start=bb, cut_blocks=D)
+                    if any(r in post for r in rets):
+                        missing.append((byte, bit))
+            if missing:
+                bytes_ = sorted({m[0] for m in missing})
+                ctx.bad(f"{short}|header-bytes-undefined|{bytes_[0]}..{bytes_[-1]}", f"{k}: a payload is filled in behind a {S}-octet header whose bytes {bytes_[:8]} "
+                        "are not written on that path: they keep what the buffer contained before (stale data leaks into the frame)", body=b, bb=bb)
+            else:
+                ctx.ok((short, callee.rsplit('::', 1)[-1], bb), sample=dict(emit=short, payload_at=S, header='every bit defined on the path'))
+    ctx.need(n >= 8, f"payload fill sites in emit bodies (found {n})")
